@@ -822,7 +822,7 @@ MANIFEST = {
     "applicable inverse image of the documented preprocessing (juxtaposition, ^, unicode superscripts, per, squared/cubed/square/sq/cubic) of every extended string must give the same value; float, Fraction and "
     "Decimal registries, Quantity(str) and ParserHelper.from_string; the same sweep with a unit whose symbol is a non-ASCII word character; pairs of rewrites at once (superscript + blank); every three-operand tree X op Y op Z "
     "(operands 2 / m / ohm-sign, bare or parenthesised, with or without a superscript exponent and a leading minus; 9 operator spellings incl. blank and 'per'; spaced and tight layouts: 0.6M strings quick, 7.6M thorough) against "
-    "CPython; preprocessors stay with their registry (every order of building plain registries, registries with a preprocessor and appending one; plain registries must keep parsing 13 probe strings unchanged); literal typing; all strings up to length 3 (4) over a 22-token hostile alphabet under sys.addaudithook with attribute-recording sentinels.",
+    "CPython; what a parse returns belongs to the caller (14 probe strings x 4 entry points x 4 in-place changes of the first result, plain and force_ndarray registries: the next parse is unaffected); preprocessors stay with their registry (every order of building plain registries, registries with a preprocessor and appending one; plain registries must keep parsing 13 probe strings unchanged); literal typing; all strings up to length 3 (4) over a 22-token hostile alphabet under sys.addaudithook with attribute-recording sentinels.",
     "note": "Trusted: CPython's parser as the definition of Python precedence; the 6 literal rewrite rules. Not covered: strings longer than the bound, arbitrary unicode fuzz (sampling family), the +/- "
     "uncertainty operator (C19), '%' (rewritten to 'percent' by the default preprocessor). Powers beyond ~1e6 bits are skipped on both sides.",
     "ref": "DESIGN.md §4 C07",
